@@ -42,6 +42,9 @@ def nest_query(n):
     return "RULE r FOR (e);\nWHERE w1 : %s >= 0;\nEND_RULE;" % q
 
 
+TIER = ["quick"]
+
+
 def shapes():
     out = []
     for n in (200, 254, 255, 256, 257, 300, 10000):
@@ -100,6 +103,34 @@ def shapes():
     out.append(("incl_missing", "SCHEMA s;\nINCLUDE 'nosuchfile.exp';\nEND_SCHEMA;\n", None))
     out.append(("incl_sequence", "SCHEMA s;\n" + "".join("INCLUDE 'inc%d.exp';\n" % j for j in range(1, 10)) + "END_SCHEMA;\n", None))
     out.append(("incl_nested", "SCHEMA s;\nINCLUDE 'inc1.exp';\nEND_SCHEMA;\n", None))
+    # shapes whose cost or size grows with the input: layered selects, stacked diamonds, long enumerations / selects,
+    # long escaped initializers, a type based on a type of another schema (sizes above the open findings only in the thorough tier)
+    def sel_dag(n):
+        t = "SCHEMA s;\n"
+        for i in range(n):
+            t += "TYPE l%02da = SELECT (l%02da, l%02db);\nEND_TYPE;\nTYPE l%02db = SELECT (l%02da, l%02db);\nEND_TYPE;\n" % (i, i + 1, i + 1, i, i + 1, i + 1)
+        t += "TYPE l%02da = SELECT (e1);\nEND_TYPE;\nTYPE l%02db = SELECT (e2);\nEND_TYPE;\n" % (n, n)
+        return t + "ENTITY e1; END_ENTITY;\nENTITY e2; END_ENTITY;\nENTITY top; x : l00a; END_ENTITY;\nEND_SCHEMA;\n"
+
+    def diamonds(n):
+        t = "SCHEMA d;\nENTITY top; t0 : INTEGER; END_ENTITY;\n"
+        prev = "top"
+        for i in range(n):
+            t += "ENTITY l%02d SUBTYPE OF (%s); END_ENTITY;\nENTITY r%02d SUBTYPE OF (%s); END_ENTITY;\nENTITY j%02d SUBTYPE OF (l%02d, r%02d); END_ENTITY;\n" % (i, prev, i, prev, i, i, i)
+            prev = "j%02d" % i
+        return t + "ENTITY bottom SUBTYPE OF (%s); newattr : INTEGER; END_ENTITY;\nEND_SCHEMA;\n" % prev
+
+    def bigenum(n):
+        return "SCHEMA s;\nTYPE e = ENUMERATION OF (%s);\nEND_TYPE;\nENTITY a; x : e; END_ENTITY;\nEND_SCHEMA;\n" % ",".join("item_number_%04d" % i for i in range(n))
+    for n in ((3, 8) if TIER[0] == "quick" else (3, 8, 14, 40)):
+        out.append(("select_dag_%d" % n, sel_dag(n), ("growth", "exponential_select_walk") if n >= 14 else ("valid", 0)))
+    for n in ((2, 6) if TIER[0] == "quick" else (2, 6, 12, 30)):
+        out.append(("diamonds_%d" % n, diamonds(n), ("growth", "exponential_supertype_walk") if n >= 12 else ("valid", 0)))
+    for n in (50, 200, 600, 3000):
+        out.append(("enum_items_%d" % n, bigenum(n), ("growth", "type_description_buffer") if n >= 300 else ("valid", 0)))
+    for n in (100, 9000, 40000):
+        out.append(("derive_backslashes_%d" % n, "SCHEMA d;\nENTITY e;\n a : STRING;\nDERIVE\n b : STRING := '%s';\nEND_ENTITY;\nEND_SCHEMA;\n" % ("\\" * n), None))
+    out.append(("type_on_foreign_type", "SCHEMA aa;\nREFERENCE FROM bb (t);\nTYPE u = t;\nEND_TYPE;\nENTITY e;\n x : u;\nEND_ENTITY;\nEND_SCHEMA;\nSCHEMA bb;\nTYPE t = INTEGER;\nEND_TYPE;\nEND_SCHEMA;\n", ("valid", 0)))
     # valid schemas that declare no entity or type (exp2cxx then opens fewer files)
     out.append(("schema_nothing", "SCHEMA nothing;\nEND_SCHEMA;\n", ("valid", 0)))
     out.append(("schema_only_function", "SCHEMA onlyfun;\nFUNCTION f (x : INTEGER) : INTEGER;\n RETURN (x);\nEND_FUNCTION;\nEND_SCHEMA;\n", ("valid", 0)))
@@ -173,6 +204,7 @@ def byte_mutants(r, text, n):
 
 
 def main(tier, seed):
+    TIER[0] = tier
     res = Result(PID, tier, seed)
     try:
         translate.run_all(PID)
@@ -294,6 +326,8 @@ def main(tier, seed):
             what = "%s rejects the valid schema %s (status %d): %s" % (tool, name, rc, txt.strip()[-150:])
         if exp and exp[0] == "long_ident" and what:
             sig = "identifier_longer_than_name_buffers"
+        if exp and exp[0] == "growth" and what:
+            sig = exp[1]
         if rc == 0:
             accepted += 1
         else:
